@@ -22,6 +22,7 @@ type HistOpts struct {
 	Boundary      bool // include malformed / boundary inputs (0x values, forged reports, gov list changes by gov ...)
 	GovOps        bool // governance-signed privileged ops (cycle list, params, spec updates, mint init)
 	NoBadValues   bool // never submit values that the known halting defects need (used while a finding is open)
+	Stories       int  // percentage of histories that contain a scripted dispute life cycle
 	ValStatus     bool // SDK-native validator jail / unjail events (validators leave and re-enter the bonded set)
 	DisputeBias   int  // extra weight for dispute lifecycle ops
 	StakingBias   int
@@ -445,10 +446,153 @@ func (w *World) gapMs(o HistOpts) time.Duration {
 	}
 }
 
-// RunHistory = bootstrap + Blocks random blocks.
+// block runs one block: begin after gap d, n random ops plus the given scripted ops, end.
+func (w *World) block(o HistOpts, d time.Duration, scripted ...func()) bool {
+	if w.Halted || !w.Begin(d) {
+		return false
+	}
+	for _, f := range scripted {
+		f()
+		if w.pick(3) == 0 {
+			w.RandomOp(o)
+		}
+	}
+	return w.End()
+}
+
+func (w *World) lastDisputeId() uint64 {
+	ids := w.disputeIds()
+	if len(ids) == 0 {
+		return 0
+	}
+	return ids[len(ids)-1]
+}
+
+// DisputeStory drives one dispute through its whole life (the multi-step sequences random
+// message choice rarely completes): report, propose (full or partial fee, from balance or bond),
+// more fee, votes by some of team / tippers / reporters / selectors / holders, vote end with or
+// without quorum, further rounds, execution, refunds and reward claims (each also repeated).
+func (w *World) DisputeStory(o HistOpts) {
+	reps := w.reporters()
+	if len(reps) == 0 {
+		return
+	}
+	r := reps[w.pick(len(reps))]
+	sec := time.Second
+	if !w.block(o, 2*sec, func() { w.Tip(w.user(), w.currentCycleQuery(), int64(1_000_000+w.pick(5_000_000))) }, func() { w.Submit(r, w.currentCycleQuery(), hex32(uint64(1000+w.pick(5)))) }) {
+		return
+	}
+	if len(w.Reports) == 0 {
+		return
+	}
+	rep := w.Reports[len(w.Reports)-1]
+	w.block(o, 3*sec)
+	w.block(o, 3*sec)
+	cat := disputetypes.DisputeCategory(1 + w.pick(3))
+	full := sdkmath.NewIntFromUint64(rep.Power).MulRaw(1_000_000)
+	switch cat {
+	case disputetypes.Warning:
+		full = full.QuoRaw(100)
+	case disputetypes.Minor:
+		full = full.QuoRaw(20)
+	}
+	payers := []*Actor{w.anyActor(), w.anyActor()}
+	first := full.Int64()
+	partial := w.pick(3) == 0
+	if partial {
+		first = full.Int64()/2 + 1
+	}
+	if first < 10_000 {
+		first = 10_000
+	}
+	fromBond := w.pick(4) == 0
+	if !w.block(o, 2*sec, func() { w.ProposeDispute(payers[0], rep, cat, first, fromBond, "story") }) {
+		return
+	}
+	id := w.lastDisputeId()
+	if id == 0 {
+		return
+	}
+	if partial {
+		switch w.pick(3) {
+		case 0: // never completed: expires after one day
+			w.block(o, 24*time.Hour+sec)
+			w.block(o, 2*sec, func() { w.WithdrawFeeRefund(payers[0], payers[0], id) }, func() { w.WithdrawFeeRefund(payers[0], payers[0], id) })
+			return
+		default:
+			w.block(o, 3*sec, func() { w.AddFee(payers[1], id, full.Int64()/4+1, w.pick(4) == 0) })
+			w.block(o, 3*sec, func() { w.AddFee(payers[w.pick(2)], id, full.Int64(), false) })
+		}
+	}
+	rounds := 1 + w.pick(3)
+	voters := []*Actor{w.Team, r, w.anyActor(), w.anyActor(), w.user(), w.user()}
+	for round := 1; round <= rounds && !w.Halted; round++ {
+		id = w.lastDisputeId()
+		nv := w.pick(len(voters) + 1)
+		if round < rounds && nv > 2 {
+			nv = w.pick(2) // keep it below quorum so that another round is possible
+		}
+		var votes []func()
+		for i := 0; i < nv; i++ {
+			v := voters[w.pick(len(voters))]
+			ch := disputetypes.VoteEnum(w.pick(3))
+			votes = append(votes, func() { w.Vote(v, id, ch) })
+		}
+		w.block(o, 5*sec, votes...)
+		w.block(o, 48*time.Hour+time.Duration(w.pick(3))*sec) // vote period ends: tally in BeginBlock
+		if round < rounds {
+			p := payers[w.pick(2)]
+			w.block(o, time.Hour, func() { w.ProposeDispute(p, rep, cat, full.Int64()*2, w.pick(5) == 0, "story-round") })
+			if w.lastDisputeId() == id {
+				break
+			}
+		}
+	}
+	w.block(o, 72*time.Hour+sec) // dispute end passed: execution in BeginBlock
+	w.block(o, 2*sec)
+	// claims, each possibly twice, in random order; all round ids of the family are tried
+	ids := w.disputeIds()
+	var claims []func()
+	for _, did := range ids {
+		did := did
+		for _, p := range append(payers, r) {
+			p := p
+			claims = append(claims, func() { w.WithdrawFeeRefund(w.anyActor(), p, did) })
+		}
+		for _, v := range voters {
+			v := v
+			claims = append(claims, func() { w.ClaimReward(v, did) })
+		}
+	}
+	w.Rng.Shuffle(len(claims), func(i, j int) { claims[i], claims[j] = claims[j], claims[i] })
+	for len(claims) > 0 && !w.Halted {
+		n := 6
+		if n > len(claims) {
+			n = len(claims)
+		}
+		w.block(o, 3*sec, claims[:n]...)
+		claims = claims[n:]
+	}
+	if w.pick(2) == 0 {
+		w.block(o, 2*sec, func() { w.WithdrawFeeRefund(payers[0], payers[0], id) }, func() { w.ClaimReward(w.Team, id) }, func() { w.Unjail(r) })
+	}
+}
+
+// RunHistory = bootstrap + Blocks random blocks (+ dispute stories).
 func (w *World) RunHistory(o HistOpts) {
 	w.Bootstrap(o)
+	storyAt := -1
+	if o.Stories > 0 && w.pick(100) < o.Stories {
+		storyAt = 2 + w.pick(o.Blocks/2+1)
+	}
 	for b := 0; b < o.Blocks && !w.Halted; b++ {
+		if b == storyAt {
+			w.DisputeStory(o)
+			if w.pick(3) == 0 {
+				storyAt = b + 3 + w.pick(8)
+			}
+			continue
+		}
 		if !w.Begin(w.gap(o)) {
 			break
 		}
